@@ -1362,6 +1362,13 @@ def declare_rules(ck):
             "contain both the mesh part (or its target set holder) and the topology handed to deduct_topology - fill_ish looks every vertex of "
             "a mapped edge/face/cell up in the inverse vertex map, which is defined only for vertices in the vertex target set (input class: "
             "a mesh part with topology=\"parent\" that lists an edge but not both of its vertices)", 1)
+    ck.rule("E12.dimension-coverage",
+            "a recursive per-dimension helper family of the reader (Intern::TopoParseHelper / MappParseHelper / MappCheckHelper<Shape, dim>: a "
+            "member function that calls the same function of the same template for another dimension) does its work for every dimension the "
+            "holder it is given has: the set of dimensions d for which some instantiated member of the family touches get_target_set<d> is "
+            "{0..shape_dim}, for get_index_set<d,0> it is {1..shape_dim} (vertices have no index set) - wherever the recursion ends, the "
+            "terminal specialisation lies below the lowest dimension or does that dimension's work itself (input class: a mesh part in front "
+            "of the <Mesh> whose vertex mapping holds an out-of-range index: the deferred check never looks at dimension 0)", 18)
     ck.rule("E1.deferred-roles",
             "a value a parser callback hands to a task helper of the reader (MeshNodeLinker::meshpart_link_to_chart(part, chart)) arrives in the "
             "role it was read in: the argument that carries attribute K (name= of <MeshPart> -> the mesh part, chart= -> the chart) is followed "
@@ -1495,6 +1502,7 @@ def run(tier):
     rule_deferred_roles(ck, W, pcs, facts)
     rule_stored_index_bounded(ck, W, pcs, facts)
     rule_deduct_precondition(ck, W, facts)
+    rule_dimension_coverage(ck, W, facts)
     rule_parse_sign(ck, W, facts)
     rule_attr_value_used(ck, W, pcs, facts)
     rule_carrier_transfer(ck, W, facts)
@@ -5330,6 +5338,48 @@ def rule_deduct_precondition(ck, W, facts):
             undecided(ck, rule, key, "; ".join(sorted(set(rec["unk"]))[:2]))
         else:
             ck.ob(rule, key, True, "; ".join(sorted(set(rec["ok"]))[:2]), rec["fn"].file, rec["line"])
+
+
+def rule_dimension_coverage(ck, W, facts):
+    rule = "E12.dimension-coverage"
+    fam = {}
+    for f in facts.functions:
+        if f.tk == "pattern" or f.body is None or not f.cls or not re.search(r"mesh_file_reader\.hpp$", f.file or ""):
+            continue
+        m = re.match(r"(.*)<(FEAT::Shape::\w+<(\d+)>), (-?\d+)>$", f.cls)
+        if not m:
+            continue
+        fam.setdefault((m.group(1), f.name, m.group(2), int(m.group(3))), []).append((int(m.group(4)), f))
+    for (base, name, shape, n), members in sorted(fam.items()):
+        recursive = any(x.get("k") in ("Call", "MCall") and (x.get("callee") or "").rsplit("::", 1)[-1] == name and x.get("ccls") and strip_targs(x["ccls"]) == base and x["ccls"] != g.cls
+                        for _, g in members for x in g.nodes())
+        if not recursive:
+            continue
+        work = {}
+        other = []
+        for d, g in members:
+            for x in g.nodes():
+                if x.get("k") == "MCall" and x.get("n") in SET_ACCESSORS and re.match(r"FEAT::Geometry::(IndexSetHolder|TargetSetHolder)<", x.get("ccls") or ""):
+                    mm = re.match(r"<(-?\d+)", targs_of(x.get("cfull")))
+                    if mm:
+                        work.setdefault(x["n"], set()).add(int(mm.group(1)))
+                        if int(mm.group(1)) != d:
+                            other.append((d, int(mm.group(1))))
+        key = "%s<%s>::%s" % (short(base), shape.replace("FEAT::Shape::", ""), name)
+        f0 = sorted(members, key=lambda t: -t[0])[0][1]
+        if not work:
+            undecided(ck, rule, key, "recursive over the dimension, but no member touches a target / index set accessor: the work per dimension is not recognised")
+            continue
+        probs = []
+        for acc, dims in sorted(work.items()):
+            want = set(range(0 if acc == "get_target_set" else 1, n + 1))
+            miss = sorted(want - dims)
+            if miss:
+                term = sorted(d for d, g in members if not any(x.get("k") == "MCall" and x.get("n") in SET_ACCESSORS for x in g.nodes()))
+                probs.append("no member of the family touches %s<%s>: dimension%s %s of %s %s never visited (instantiated members: dim %s; members that do nothing: dim %s)" % (
+                    acc, ",".join(map(str, miss)), "s" if len(miss) > 1 else "", ",".join(map(str, miss)), shape.replace("FEAT::Shape::", ""), "are" if len(miss) > 1 else "is",
+                    sorted(d for d, _ in members), term))
+        ck.ob(rule, key, not probs, "; ".join(probs) or "dimensions %s" % "; ".join("%s: %s" % (a, sorted(ds)) for a, ds in sorted(work.items())), f0.file, f0.line)
 
 
 def rule_callee_precondition(ck, W, facts):
